@@ -119,6 +119,8 @@ struct RunCfg {
     jobs: u32,
     final_exit: bool,
     junk_after_exit: usize,
+    /// the input does not end with a line break (the last line, or the final `exit`, is unterminated)
+    unterminated: bool,
     delay_seed: Option<u64>,
     max_us: u64,
     pace: Pace,
@@ -200,11 +202,15 @@ fn run_child(bin: &Path, model: &Path, lines: &[String], cfg: &RunCfg, log: Opti
             let cfg = cfg.clone();
             sc.spawn(move || {
                 let n = lines.len();
+                let bare_last = cfg.unterminated && !cfg.final_exit;
                 let send = |from: usize, to: usize, stdin: &mut std::process::ChildStdin| {
                     let mut s = String::new();
                     for l in &lines[from..to] {
                         s.push_str(l);
                         s.push('\n');
+                    }
+                    if bare_last && to == n && to > from {
+                        s.pop(); // the very last line of the input has no line break
                     }
                     let _ = stdin.write_all(s.as_bytes());
                     let _ = stdin.flush();
@@ -236,6 +242,9 @@ fn run_child(bin: &Path, model: &Path, lines: &[String], cfg: &RunCfg, log: Opti
                     let mut s = String::from("exit\n");
                     for i in 0..cfg.junk_after_exit {
                         let _ = writeln!(s, "count a {}", i + 1);
+                    }
+                    if cfg.unterminated {
+                        s.pop();
                     }
                     let _ = stdin.write_all(s.as_bytes());
                 }
@@ -283,6 +292,7 @@ fn reference(bin: &Path, model: &Path, lines: &[String], timeout: Duration) -> R
         jobs: 1,
         final_exit: false,
         junk_after_exit: 0,
+        unterminated: false,
         delay_seed: None,
         max_us: 0,
         pace: Pace::EndAfterDrain(0),
@@ -326,6 +336,7 @@ fn gen_cfg(rng: &mut Rng, n: usize, thorough: bool, cores: usize) -> RunCfg {
         jobs,
         final_exit,
         junk_after_exit: if final_exit && rng.chance(1, 4) { 1 + rng.below(3) as usize } else { 0 },
+        unterminated: rng.chance(1, 4),
         delay_seed,
         max_us,
         pace,
